@@ -29,7 +29,7 @@ def run(ctx):
     corp = harness.corpus_files()
     rng.shuffle(corp)
     texts = [(f, t) for f, t in corp[:ctx.budget(80, 451)] if len(t) < ctx.budget(20000, 10**7)]
-    for doc in harness.gen_documents(rng, ctx.budget(200, 3000), max_depth=4, contract=True):
+    for doc in harness.gen_documents(rng, ctx.budget(200, 3000), max_depth=4, contract=True, pool="parseable"):
         texts.append(("generated", docs.render(doc, harness.random_layout(rng))[0]))
     pp = PrettyPrinter()
     printed = []
@@ -66,6 +66,35 @@ def run(ctx):
                 typ, path, a, b = r[1]
                 ctx.violation("roundtrip:" + sym, "content changes on parse -> print -> parse at %s/%s: %r became %r; minimal dictionary prints as %r"
                               % (typ, "/".join(map(str, path)), a, b, small_text), {"text": t, "printed": t2, "minimal_printed": small_text})
+    # ---- every free-string slot x every awkward string (escaped quotes, blanks, unicode, look-alikes)
+    n_str = 0
+    for ot in docs.object_types():
+        for it in docs.slot_items(ot):
+            if it.shape != "string" or it.kind != "attr" or it.repeated or len(it.tokens) != 2:
+                continue
+            for w in harness.STRING_POOL:
+                item = docs.Item(it.key, [it.tokens[0], docs.T("qstr", w)], w, "string")
+                text = docs.render(docs.Block(ot, [item], False), docs.Layout())[0]
+                try:
+                    d = sweep.fast_loads(text)
+                except Exception:
+                    continue
+                if rt.excluded(d):
+                    continue
+                n_str += 1
+                ctx.note_case(("strslot", ot, it.key, w))
+                r = rt.roundtrip_failure(d, sweep.fast_loads, pp.pprint)
+                if r:
+                    sym = rt.slot_symptom(d)
+                    what = "rejected" if r[0] == "rejected" else "changed"
+                    try:
+                        shown = pp.pprint(d)
+                    except Exception:
+                        shown = None
+                    ctx.violation(("printed-text-rejected:" if r[0] == "rejected" else "roundtrip:") + sym + ("" if sym.startswith("allOf") else ":string"),
+                                  "%s %s with the string value %r is %s on parse -> print -> parse; printed as %r" % (ot.upper(), it.key.upper(), w, what, shown),
+                                  {"text": text, "printed": shown})
+    ctx.count("string_slot_roundtrips", n_str)
     # ---- correspondence: printer model on the loaded dictionaries, parser model on the printed texts
     if ctx.model_ok:
         from corr import printer as P
